@@ -421,6 +421,76 @@ func perTypeSDL(root *ggql.Root) string {
 	return b.String()
 }
 
+// printAndReparse: the two printers (the whole root, type by type), each read by a fresh root: same schema, same text again.
+func printAndReparse(root1 *ggql.Root, c1 map[string]interface{}, bad func(aspect, what string)) {
+	for _, mode := range []string{"root", "pertype"} {
+		p1 := root1.SDL(false, true)
+		if mode == "pertype" {
+			p1 = perTypeSDL(root1)
+		}
+		root2 := ggql.NewRoot(nil)
+		if err := root2.ParseString(p1); err != nil {
+			bad("reparse", fmt.Sprintf("%s: the printed schema is refused: %v\n--- printed:\n%s", mode, err, p1))
+			continue
+		}
+		if ds := sch.Diff(c1, sch.ReadBack(root2)); len(ds) > 0 {
+			bad("same", fmt.Sprintf("%s: the printed schema defines a different schema: %s\n--- printed:\n%s", mode, strings.Join(ds, "; "), p1))
+			continue
+		}
+		p2 := root2.SDL(false, true)
+		if mode == "pertype" {
+			p2 = perTypeSDL(root2)
+		}
+		if p1 != p2 {
+			bad("fixpoint", fmt.Sprintf("%s: printing again gives a different text:\n--- first:\n%s\n--- second:\n%s", mode, p1, p2))
+		}
+	}
+}
+
+// writtenHistories: documents written by hand, each a history of loads (separated by "\n----\n").  Nothing is said about
+// whether a root accepts them: C15 speaks of every schema a root ACCEPTS, so whatever is accepted is printed and read
+// back like the enumerated schemas, and what is refused is counted.  They hold what the abstract schemas of MCPrint.tla
+// do not: Time arguments of directives given as numbers of seconds (at and beyond the ends of what RFC 3339 can write),
+// schema extensions with and without a schema block.
+var writtenHistories = []string{
+	"directive @at(t: Time = 42) on OBJECT | ENUM_VALUE\ntype Query @at(t: 7) {\n  f: String\n}\nenum E {\n  A @at(t: 253402300799)\n  B @at\n  C @at(t: -62167219200)\n}\n",
+	"directive @at(t: Time = 253402300800) on OBJECT\ntype Query @at {\n  f: String\n}\n",
+	"directive @at(t: Time) on OBJECT | ENUM_VALUE\ntype Query @at(t: 253402300800) {\n  f: String\n}\n",
+	"directive @at(t: Time) on OBJECT | ENUM_VALUE\ntype Query {\n  f: String\n}\nenum E {\n  A @at(t: -62167219201)\n}\n",
+	"directive @at(t: Time = 1e30) on OBJECT\ntype Query @at {\n  f: String\n}\n",
+	"directive @at(t: Time = 1.5) on OBJECT\ntype Query @at(t: \"2021-03-04T05:06:07.25Z\") {\n  f: String\n}\n",
+	"type Query {\n  f: String\n}\ntype Changes {\n  g: Int\n}\nextend schema {\n  mutation: Changes\n}\n",
+	"type Query {\n  f: String\n}\ntype Changes {\n  g: Int\n}\n----\nextend schema {\n  mutation: Changes\n}\n",
+	"directive @link(u: String) on SCHEMA\ntype Query {\n  f: String\n}\nextend schema @link(u: \"x\")\n",
+	"directive @link(u: String) on SCHEMA\ntype Query {\n  f: String\n}\n----\nextend schema @link(u: \"x\")\n",
+	"directive @link(u: String) on SCHEMA\nschema {\n  query: Query\n}\ntype Query {\n  f: String\n}\ntype Changes {\n  g: Int\n}\n----\nextend schema @link(u: \"x\") {\n  mutation: Changes\n}\n",
+	"schema {\n  query: Q\n}\ntype Q {\n  f: String\n}\ntype Changes {\n  g: Int\n}\nextend schema {\n  mutation: Changes\n}\n",
+}
+
+func writtenRoundTrips(rep *vh.Report) {
+	for _, h := range writtenHistories {
+		docs := strings.Split(h, "\n----\n")
+		root1 := ggql.NewRoot(nil)
+		accepted := 0
+		for _, d := range docs {
+			if err := root1.ParseString(d); err != nil {
+				break
+			}
+			accepted++
+		}
+		rep.Case("written|"+h, true)
+		if accepted == 0 {
+			rep.Class("written: refused")
+			continue
+		}
+		rep.Class(fmt.Sprintf("written: %d of %d loads accepted", accepted, len(docs)))
+		bad := func(aspect, what string) {
+			rep.Mismatch(vh.Mismatch{Case: map[string]interface{}{"document": strings.Join(docs[:accepted], "\n---- then ----\n"), "tag": "written", "aspect": aspect}, What: aspect + ": " + what})
+		}
+		printAndReparse(root1, sch.ReadBack(root1), bad)
+	}
+}
+
 // cmdRoundTrip (C15): load the document, print the root, load the printed text into a fresh
 // root, compare the schemas read back, print again and compare the texts.
 func cmdRoundTrip(args []string) {
@@ -492,28 +562,7 @@ func cmdRoundTrip(args []string) {
 				continue
 			}
 		}
-		for _, mode := range []string{"root", "pertype"} {
-			p1 := root1.SDL(false, true)
-			if mode == "pertype" {
-				p1 = perTypeSDL(root1)
-			}
-			root2 := ggql.NewRoot(nil)
-			if err := root2.ParseString(p1); err != nil {
-				bad("reparse", fmt.Sprintf("%s: the printed schema is refused: %v\n--- printed:\n%s", mode, err, p1))
-				continue
-			}
-			if ds := sch.Diff(c1, sch.ReadBack(root2)); len(ds) > 0 {
-				bad("same", fmt.Sprintf("%s: the printed schema defines a different schema: %s\n--- printed:\n%s", mode, strings.Join(ds, "; "), p1))
-				continue
-			}
-			p2 := root2.SDL(false, true)
-			if mode == "pertype" {
-				p2 = perTypeSDL(root2)
-			}
-			if p1 != p2 {
-				bad("fixpoint", fmt.Sprintf("%s: printing again gives a different text:\n--- first:\n%s\n--- second:\n%s", mode, p1, p2))
-			}
-		}
+		printAndReparse(root1, c1, bad)
 		if *gen != "" && hi%7 == 0 && len(hs[hi].Hist) == 1 {
 			// ggqlgen -w rewrites the file with the printed form; -e embeds it in a Go file
 			f := filepath.Join(tmp, fmt.Sprintf("s%d.graphql", hi))
@@ -545,6 +594,7 @@ func cmdRoundTrip(args []string) {
 		}
 		_ = cs
 	}
+	writtenRoundTrips(rep)
 	rep.Emit()
 }
 
